@@ -424,7 +424,8 @@ def run(ctx):
                         "statement": "∀ m dest src1 c1 src2 c2, read (memJoin m dest src1 c1 src2 c2) dest (c1+c2) = read m src1 c1 ++ read m src2 c2 ∧ frame"})
 
     # ---- verdict
-    for key, l in oracle_bad.items():
+    ctx.cov["oracle_failing_class_names"] = list(oracle_bad)[:60]
+    for key, l in list(oracle_bad.items())[:6]:
         c, why = l[0]
         ctx.violation(key, replay_text(c, "%s (%d placements of this class)" % (why, len(l))), True,
                       "%s %s: %s; addresses %s scalars %s" % (c.fn, key.split(":")[1], why, c.addr, c.sc))
